@@ -318,7 +318,7 @@ func writeProbe(root string, batch []XDialect, pkgDirs []string) {
 				rs = append(rs, fmt.Sprintf("%q", r))
 			}
 			fmt.Fprintf(&b, "\t\t{\n\t\t\tres, acc := probeEnum(enumFns{\n\t\t\t\tmarshal: func(v uint64) (string, string, error) { e := p%d.%s(v); t, err := e.MarshalText(); return string(t), e.String(), err },\n", i, n)
-			fmt.Fprintf(&b, "\t\t\t\tunmarshal: func(s string) (uint64, error) { var e p%d.%s; err := e.UnmarshalText([]byte(s)); return uint64(e), err },\n\t\t\t}, []uint64{%s}, []string{%s})\n", i, n, strings.Join(vs, ","), strings.Join(rs, ","))
+			fmt.Fprintf(&b, "\t\t\t\tunmarshal: func(s string) (uint64, error) { var e p%d.%s; err := e.UnmarshalText([]byte(s)); d := p%d.%s(0xFFFF0F); derr := d.UnmarshalText([]byte(s)); if err == nil && (derr != nil || d != e) { return uint64(d), fmt.Errorf(\"result depends on the previous value of the destination: %%d vs %%d\", uint64(e), uint64(d)) }; return uint64(e), err },\n\t\t\t}, []uint64{%s}, []string{%s})\n", i, n, i, n, strings.Join(vs, ","), strings.Join(rs, ","))
 			fmt.Fprintf(&b, "\t\t\tenums[%q] = res\n\t\t\trejects[%q] = acc\n\t\t}\n", n, n)
 		}
 		b.WriteString("\t\tr[\"Enums\"] = enums\n\t\tr[\"Rejects\"] = rejects\n\t\tout = append(out, r)\n\t}\n")
@@ -534,6 +534,8 @@ func classify(d XDialect) []string {
 			for _, en := range e.Entries {
 				if strings.HasPrefix(en.Text, "0x") || strings.HasPrefix(en.Text, "0b") || strings.Contains(en.Text, "**") {
 					set["non-decimal-enum-value"] = true
+				} else if len(en.Text) > 1 && en.Text[0] == '0' {
+					set["leading-zero-decimal"] = true
 				}
 			}
 		}
@@ -579,7 +581,7 @@ func snakeInvertible(name string) bool {
 
 func TestC18Generator(t *testing.T) {
 	rec := evid.New(t, "C18", "XML documents printed from a random dialect model (messages with ids up to 2^24-1, scalar/array/char[n]/scalar char/uint8_t_mavlink_version/enum-typed fields, extension marker at every position, non-snake-case field names, ordinary and bitmask enums with decimal/0x/0b/a**b values, include graphs with diamonds and enums extended by the includer, <version> present/absent) are converted by the real conversion.Convert, compiled with go build, and a probe linked against the generated packages dumps ids, CRC_EXTRA, sizes, per-field one-hot encodings, constants and enum text behaviour; all compared with expectations derived from the model; generating twice must give identical trees; definitions with an unknown field type, a malformed enum value or message name must be refused; non-trivial = document with an extension block, an include, a mavname-requiring field or a non-decimal enum value; distinct by hash of the XML")
-	rec.Require("extension", "include", "mavname-field", "non-decimal-enum-value", "negative-refused", "bitmask-enum", "enum-field", "scalar-char", "enum-extended-by-includer")
+	rec.Require("extension", "include", "mavname-field", "non-decimal-enum-value", "leading-zero-decimal", "negative-refused", "bitmask-enum", "enum-field", "scalar-char", "enum-extended-by-includer")
 	root := scratch(t)
 	defer os.RemoveAll(root)
 	evid.Check(t, rec, evid.N(50, 200), func(t *rapid.T) {
